@@ -85,6 +85,22 @@ class MayFlow:
 
     def run(self, fn, ids):
         self.add(fn, ids)
+        if self.seed is not None:
+            # a seed may sit inside a helper: every crate-local callee (two levels) takes part, so that "the helper returns a
+            # seeded value" is known at its call sites
+            todo, seen = [(self.group(fn), 0)], {self.group(fn)["path"]}
+            while todo:
+                g, d = todo.pop()
+                if d >= 2:
+                    continue
+                for b in self.bodies(g):
+                    for n in T.walk(b["body"]):
+                        if n.get("k") == "Call":
+                            c = self.callee(n)
+                            if c is not None and c["path"] not in seen and sum(1 for _ in T.walk(c["body"])) < 600:
+                                seen.add(c["path"])
+                                self.add(c, set(), d + 1)
+                                todo.append((c, d + 1))
         self.solve()
         return self.reached
 
